@@ -640,13 +640,35 @@ pub fn at_end(w: &mut World) {
             }
         }
     }
-    // race: losers dropped unfinished together with the race future — covered by outlive + child_drop;
-    // here: they must not have been completed behind the caller's back
+    // race: losers are dropped, unfinished, together with the race future
     if w.model.flat && matches!(w.node(ROOT).fam, Family::Race) && w.node(ROOT).done {
         let kids = w.node(ROOT).children.clone();
         let winners = kids.iter().filter(|&&k| w.node(k).done).count();
         if winners > 1 {
             w.flag("c06.losers", || format!("{winners} children of race ran to completion (expected only the winner)"));
+        }
+        for &k in &kids {
+            let d = w.node(k).dropped;
+            if d != 1 {
+                w.flag("c06.losers", || format!("child n{k} of a resolved race was dropped {d} times by the time the race future was gone (expected exactly once, together with it)"));
+            }
+        }
+    }
+    // try_join: after a failure the values already produced by siblings are dropped, not returned
+    if w.model.flat && matches!(w.node(ROOT).fam, Family::TryJoin) && w.node(ROOT).last == Some(Res::Err) {
+        let kids = w.node(ROOT).children.clone();
+        for &k in &kids {
+            let d = w.node(k).dropped;
+            if d != 1 {
+                w.flag("c05.discard", || format!("child n{k} of a failed try_join was dropped {d} times by the time the try_join future was gone (expected exactly once)"));
+            }
+            for v in w.node(k).produced.clone() {
+                let i = &w.vals[v as usize];
+                if i.returned == 0 && i.dropped != 1 {
+                    let d = i.dropped;
+                    w.flag("c05.discard", || format!("value v{v} produced by sibling n{k} before the failure was dropped {d} times (expected: discarded exactly once, never returned)"));
+                }
+            }
         }
     }
 }
